@@ -122,6 +122,13 @@ end
 def fromMembers {N} (ms : List (Bytes × Value N)) : List (Bytes × Value N) :=
   ms.foldl (fun acc kv => insertKV kv.1 kv.2 acc) []
 
+/-- bytewise lexicographic order, textbook form: `a` is a proper prefix of `b`, or at the first
+position where they differ `a` has the smaller byte (as an unsigned value; NUL is a byte like
+any other). -/
+def BytesLt (a b : Bytes) : Prop :=
+  ∃ p : Bytes, (∃ c r, a = p ∧ b = p ++ c :: r) ∨
+    (∃ x y ra rb, a = p ++ x :: ra ∧ b = p ++ y :: rb ∧ x.toNat < y.toNat)
+
 /-! ## RFC 8259 grammar -/
 
 /-- ws = *( %x20 / %x09 / %x0A / %x0D ) -/
